@@ -727,7 +727,8 @@ def strategies(clean_fraction=True):
                 bad = st.one_of(raising, raw, st.builds(lambda s: {"k": "st", "st": s}, stat))
             return good if clean else st.one_of(good, good, good, bad)
 
-        return keys(STATUS_ONLY + PAIR).flatmap(
+        svc = st.one_of(keys(STATUS_ONLY + PAIR), keys(PAIR), keys(("C-ECHO", "C-STORE", "N-DELETE")))
+        return svc.flatmap(
             lambda svc: st.fixed_dictionaries(
                 dict(
                     base,
@@ -916,9 +917,19 @@ def run_ctx_case(case):
         if i == cid:
             tsname = t
     req = mk_request(rtype, CTX_SOP[rtype], 7, tsname)
-    old_thread, old_chunk = D.threading, _config.STORE_RECV_CHUNKED_DATASET
+    import pynetdicom.dimse_messages as DM
+
+    old_thread, old_chunk, old_ntf = D.threading, _config.STORE_RECV_CHUNKED_DATASET, DM.NamedTemporaryFile
     D.threading = type("T", (), {"Thread": _SyncThread})
     _config.STORE_RECV_CHUNKED_DATASET = path == "recv-chunked"
+    temp_files = []
+
+    def tracking_ntf(*args, **kw):  # chunked receive creates delete=False temporary files: remove them afterwards
+        f = old_ntf(*args, **kw)
+        temp_files.append(f)
+        return f
+
+    DM.NamedTemporaryFile = tracking_ntf
     try:
         with E3.no_sleep(), warnings.catch_warnings():
             warnings.simplefilter("ignore")
@@ -950,6 +961,9 @@ def run_ctx_case(case):
                     fin.NumberOfFailedSuboperations = 0
                     fin.NumberOfWarningSuboperations = 0
                     E3.inject_message(a, fin, model_ids[0])
+                    # (an N-EVENT-REPORT request is served at once by receive_primitive's worker "thread", which leaves
+                    # the paused flag cleared; there is no reactor thread here to set it again)
+                    a._is_paused = True
                     n0 = len(a.sent)
                     if path == "cget-scu":
                         gen = a.send_c_get(ident, model, msg_id=1)
@@ -960,14 +974,15 @@ def run_ctx_case(case):
             except Exception as e:  # noqa: BLE001
                 obs.raised = e
     finally:
-        D.threading, _config.STORE_RECV_CHUNKED_DATASET = old_thread, old_chunk
-        m = a.dimse.message
-        f = getattr(m, "_data_set_file", None) if m is not None else None
-        if f is not None:  # chunked receive left a temporary file behind
-            import os
+        D.threading, _config.STORE_RECV_CHUNKED_DATASET, DM.NamedTemporaryFile = old_thread, old_chunk, old_ntf
+        import os
 
+        for f in temp_files:
             try:
                 f.close()
+            except Exception:  # noqa: BLE001
+                pass
+            try:
                 os.unlink(f.name)
             except OSError:
                 pass
